@@ -12,7 +12,14 @@ COMMON_NOTE = (
     "the exact row-reduction stub for sympy.solve, the float/str bindings of pv/shims.py; IEEE rounding and HiGHS tolerances are seen only "
     "through replay of solver-constructed witnesses on the unshimmed code."
 )
+TECH = "symbolic execution of the real Python on z3-backed proxy scalars (decision-tree re-execution), exact parametric-LP stub, SMT (QF_LRA) obligations per path, counterexamples replayed on the unshimmed code"
 CHECKS = {
+    "C01": {
+        "text": "Bounded symbolic execution of the real PolyhedralIoContract.compose_tactics (assumption refinement, three guarantee relaxations, simplify, constructor) for enumerated wirings/coefficient patterns/options with every constant symbolic; per returning path one QF_LRA query decides the assume-guarantee soundness obligation for all constants and all behaviours. Reaches the tie/degenerate-constant branches that decide which tactic fires, which a finite test sample cannot.",
+        "design_ref": "DESIGN.md section 8 C01",
+        "note": COMMON_NOTE,
+        "technique": TECH,
+    },
     "C04": {
         "text": "Bounded symbolic execution of the real elim_vars_by_refining/relaxing (all tactics, simplify, reduce_polytope) with every constant of term list and context a z3 Real; on each feasible path one QF_LRA query decides 'context and result imply original' (resp. 'implied by') for all constants and all points. Tests sample a few dozen concrete constants; the branches that make a tactic unsound sit on measure-zero sets of constants that only the solver finds.",
         "design_ref": "DESIGN.md section 8 C04",
